@@ -1,1 +1,20 @@
-fn main(){ println!("{:?}", yata::core::Window::new(3,1u8)); let _=serde_json::json!({}); }
+//! yv — conformance harness binding /verif/spec (TLA+) to the real yata crate.
+//! Direction A: `*-replay` commands execute TLC-generated behaviours / tables on the real API.
+//! Direction B: `*-record` commands drive the real API and log NDJSON traces for TLC to validate.
+mod util;
+mod window;
+
+fn main() {
+	util::silence_panics();
+	let args: Vec<String> = std::env::args().skip(1).collect();
+	let cmd = args.first().map(String::as_str).unwrap_or("");
+	let rest = &args[args.len().min(1)..];
+	match cmd {
+		"window-replay" => window::replay(rest),
+		"window-record" => window::record(rest),
+		_ => {
+			eprintln!("unknown command {cmd:?}");
+			std::process::exit(2);
+		}
+	}
+}
